@@ -212,12 +212,24 @@ func genCase(t *rapid.T) (*Case, []string) {
 			h = kit.WithTWCC(h, twccID, rapid.Uint16().Draw(t, "tw"))
 		}
 		c.OutHeader, _ = h.Marshal()
-		c.OutPayload = rapid.OneOf(rapid.SampledFrom([]int{0, 1459, 1460, 1461, 1500, 2000, 65535}), rapid.IntRange(0, 65535)).Draw(t, "payload")
+		sizeGen := rapid.OneOf(rapid.SampledFrom([]int{0, 1459, 1460, 1461, 1500, 2000, 65535}), rapid.IntRange(1380, 1620), rapid.IntRange(0, 65535))
+		c.OutPayload = sizeGen.Draw(t, "payload")
+		for i, n := 0, rapid.IntRange(0, 5).Draw(t, "more"); i < n; i++ {
+			c.OutMore = append(c.OutMore, rapid.OneOf(sizeGen, rapid.Just(c.OutPayload), rapid.IntRange(0, 200)).Draw(t, "payloadMore"))
+		}
 		// listed known finding: the pacing interceptor (here 500 Mbit/s, 1 ms: bucket of 500 000 bits) accepts a packet
 		// its bucket can never hold and then blocks everything behind it; excluded by construction, counted
-		if c.Member == "pacing" && 8*(c.OutPayload+len(c.OutHeader)) >= 500_000 && kit.Known("C02-pacing-oversize-blocks-queue") {
-			classes = append(classes, "excluded:C02-pacing-oversize-blocks-queue")
-			c.OutPayload = 60_000
+		if c.Member == "pacing" && kit.Known("C02-pacing-oversize-blocks-queue") {
+			if 8*(c.OutPayload+len(c.OutHeader)) >= 500_000 {
+				classes = append(classes, "excluded:C02-pacing-oversize-blocks-queue")
+				c.OutPayload = 60_000
+			}
+			for i := range c.OutMore {
+				if 8*(c.OutMore[i]+len(c.OutHeader)) >= 500_000 {
+					classes = append(classes, "excluded:C02-pacing-oversize-blocks-queue")
+					c.OutMore[i] = 60_000
+				}
+			}
 		}
 	}
 
